@@ -158,6 +158,33 @@ func VxC03HistoryWriteThenRevert() {
 	st := &State{batch: batch}
 	vx.Assert(st.writeHistory(n, &diff) == nil, "write-history-ok")
 	vx.Assert(batch.Write() == nil, "commit-block")
+	// while the block is in place, reads at and above n answer what the block wrote (zero included:
+	// a slot cleared by the block reads zero, not its earlier value) and what it left alone
+	{
+		qa := vx.U64("qa")
+		vx.Assume(qa >= n)
+		wantV, wantN, wantC := vOld, nOld, cOld
+		if sd, ok := diff.StorageDiffs[*a1]; ok {
+			wantV = sd[*slot]
+		}
+		if nv, ok := diff.Nonces[*a1]; ok {
+			wantN = nv
+		}
+		if cv, ok := diff.ReplacedClasses[*a1]; ok {
+			wantC = cv
+		}
+		av, ae1 := sr.ContractStorageAt(a1, slot, qa)
+		an, ae2 := sr.ContractNonceAt(a1, qa)
+		ac, ae3 := sr.ContractClassHashAt(a1, qa)
+		vx.Assert(ae1 == nil && ae2 == nil && ae3 == nil, "reads-ok")
+		vx.Assert(av.Equal(wantV), "storage-at-or-above-the-block-is-what-the-block-wrote")
+		vx.Assert(an.Equal(wantN) && ac.Equal(wantC), "nonce-and-class-at-or-above-the-block-are-what-the-block-wrote")
+		if n > 0 && qa == n {
+			// just below the block the earlier values still answer
+			bv, be := sr.ContractStorageAt(a1, slot, n-1)
+			vx.Assert(be == nil && (m > n-1 || bv.Equal(vOld)), "storage-below-the-block-unchanged")
+		}
+	}
 	// revert
 	batch2 := d.NewBatch()
 	st2 := &State{batch: batch2}
